@@ -85,7 +85,7 @@ type ByteOrder uint8
 type Registers struct {
 	defaultByteOrder ByteOrder
 	startAddress     uint16
-	endAddress       uint16 // end address is not addressable. endAddress-1 is last addressable register (2 bytes)
+	endAddress       uint32 // end address is not addressable (can be 65536). endAddress-1 is last addressable register (2 bytes)
 	data             []byte
 }
 
@@ -101,7 +101,7 @@ func NewRegisters(data []byte, startAddress uint16) (*Registers, error) {
 	return &Registers{
 		defaultByteOrder: BigEndianHighWordFirst,
 		startAddress:     startAddress,
-		endAddress:       startAddress + uint16(dataLen/2),
+		endAddress:       uint32(startAddress) + uint32(dataLen/2),
 		data:             data,
 	}, nil
 }
@@ -125,10 +125,10 @@ func (r Registers) register(address uint16) ([]byte, error) {
 	if address < r.startAddress {
 		return nil, errors.New("address under startAddress bounds")
 	}
-	if address >= r.endAddress {
+	if uint32(address) >= r.endAddress {
 		return nil, errors.New("address over startAddress+quantity bounds")
 	}
-	startIndex := (address - r.startAddress) * 2
+	startIndex := int(address-r.startAddress) * 2
 	return r.data[startIndex : startIndex+2], nil
 }
 
@@ -145,10 +145,10 @@ func (r Registers) doubleRegister(address uint16, byteOrder ByteOrder) ([]byte, 
 	if address < r.startAddress {
 		return nil, errors.New("address under startAddress bounds")
 	}
-	if address > (r.endAddress - 2) {
+	if uint32(address)+2 > r.endAddress {
 		return nil, errors.New("address over startAddress+quantity bounds")
 	}
-	startIndex := (address - r.startAddress) * 2
+	startIndex := int(address-r.startAddress) * 2
 	if byteOrder&LowWordFirst != 0 {
 		// reverse words/registers order (low word first)
 		return []byte{
@@ -175,10 +175,10 @@ func (r Registers) quadRegister(address uint16, byteOrder ByteOrder) ([]byte, er
 	if address < r.startAddress {
 		return nil, errors.New("address under startAddress bounds")
 	}
-	if address > (r.endAddress - 4) {
+	if uint32(address)+4 > r.endAddress {
 		return nil, errors.New("address over startAddress+quantity bounds")
 	}
-	startIndex := (address - r.startAddress) * 2
+	startIndex := int(address-r.startAddress) * 2
 	if byteOrder&LowWordFirst != 0 {
 		// reverse words/registers order (low word first)
 		return []byte{
@@ -458,14 +458,14 @@ func (r Registers) StringWithByteOrder(address uint16, length uint8, byteOrder B
 	if address < r.startAddress {
 		return "", errors.New("address under startAddress bounds")
 	}
-	startIndex := (address - r.startAddress) * 2
-	endIndex := startIndex + uint16(length)
+	startIndex := int(address-r.startAddress) * 2
+	endIndex := startIndex + int(length)
 	// length is bytes. but data is sent in registers (2 bytes) and in big endian format. so last character for odd size
 	// needs 1 more byte (it needs to be swapped)
 	if length%2 != 0 {
 		endIndex++
 	}
-	if int(endIndex) > len(r.data) {
+	if endIndex > len(r.data) {
 		return "", errors.New("address over data bounds")
 	}
 
